@@ -196,7 +196,17 @@ def run(pid, cfg, a, seed, scratch, t_start):
         tasks.append((label, [binp] + args, cwd, env, timeout))
 
     if a.replay:
-        binp = need_bin(race=cfg.get("replay_race", False))
+        # a case found by a job that lives in its own package (CLI engines) is replayed by that package's
+        # TestVerifReplay; the failure file names the job
+        rjob = None
+        try:
+            jn = json.load(open(a.replay)).get("job")
+            for j in cfg["jobs"]:
+                if j["name"] == jn and j.get("pkgdir"):
+                    rjob = j
+        except Exception:
+            pass
+        binp = need_bin(race=cfg.get("replay_race", False), job=rjob)
         add_task("replay", binp, ["-test.run", "^TestVerifReplay$", "-test.v", "-test.timeout", "600s"],
                  {"VERIF_REPLAY": os.path.abspath(a.replay)}, 700)
     else:
